@@ -75,6 +75,23 @@ Fixpoint drop_all (pat : string) (skip : nat) (s : string) : string :=
 Definition replace_all (pat s : string) : string :=
   match pat with EmptyString => s | _ => drop_all pat 0 s end.
 
+(* re.sub(r"(?<![\w.])" + re.escape(m) + r"\.", "", s): the occurrences of "m." that LEAD a dotted name (not preceded
+   by an identifier character or a dot) are dropped.  [ok]: the character in front allows a match here; after a dropped
+   occurrence the character in front is its final dot. *)
+Definition is_word (c : ascii) : bool := is_alpha_ c || is_digit c.
+
+Fixpoint drop_lead (pat : string) (skip : nat) (ok : bool) (s : string) : string :=
+  match s with
+  | EmptyString => EmptyString
+  | String c r =>
+      match skip with
+      | S k => drop_lead pat k false r
+      | O => if ok && String.prefix pat s then drop_lead pat (String.length pat - 1) false r
+             else String c (drop_lead pat 0 (negb (is_word c || Ascii.eqb c dot)) r)
+      end
+  end.
+Definition strip_lead (m s : string) : string := drop_lead (m ++ ".") 0 true s.
+
 (* pat in s *)
 Fixpoint contains (pat s : string) : bool :=
   String.prefix pat s || match s with EmptyString => false | String _ r => contains pat r end.
@@ -126,6 +143,10 @@ Inductive entry : Type :=
 
 Record lib : Type := {
   l_pkg : string;                    (* frames.PKG_NAME *)
+  l_strip_lead : bool;               (* forwardref drops "<module>." only where it leads a dotted name (re.sub); false: the
+                                        pinned code, every occurrence (str.replace) *)
+  l_caller_head : bool;              (* _resolve_module_name: a leading dotted name that the calling module binds is a name
+                                        of that module, not a module qualifier; false: the pinned code *)
   l_extract : frame;                 (* frames.extract's own frame: the walk starts there *)
   l_chain : entry -> list frame
 }.
@@ -181,6 +202,32 @@ Fixpoint binding_module (pkg : string) (st : list frame) (ref : string) : option
       | _, _ => binding_module pkg r ref
       end
   end.
+
+(* the frames step 2 of the repaired resolver passes over for every name *)
+Definition skipped (pkg : string) (f : frame) : bool :=
+  match f_gname f with
+  | Some m => String.eqb m "" || internal pkg m
+  | None => true
+  end.
+(* the calling frame: the innermost one that is not passed over *)
+Fixpoint first_unskipped (pkg : string) (st : list frame) : option frame :=
+  match st with
+  | [] => None
+  | f :: r => if skipped pkg f then first_unskipped pkg r else Some f
+  end.
+
+(* the module of the calling frame, if its globals bind the name *)
+Definition caller_module_binding (pkg : string) (st : list frame) (h : string) : option string :=
+  match first_unskipped pkg st with
+  | Some c => match lookup h (f_globals c), f_gname c with
+              | Some _, Some m => Some m
+              | _, _ => None
+              end
+  | None => None
+  end.
+
+(* a text made of identifier characters and dots only *)
+Definition dotted_text (s : string) : bool := all_chars (fun c => is_word c || Ascii.eqb c dot) s.
 
 Inductive key : Type :=
 | KStr (s : string)                        (* a bare str *)
@@ -257,9 +304,15 @@ Section Resolver.
   Variable L : lib.
 
   (* the body of _resolve_module_name(ref, None); [st] starts with its own frame *)
+  (* the leading dotted name of a text: the module it names, unless (repaired code) the calling module binds that name *)
+  Definition head_module (st : list frame) (h : string) : string :=
+    if fixed && l_caller_head L then
+      match caller_module_binding (l_pkg L) st h with Some m => m | None => h end
+    else h.
+
   Definition resolve_body (st : list frame) (ref : string) : option string :=
     let h := head_of ref in
-    if has_dot ref && is_ident h then Some h
+    if has_dot ref && is_ident h then Some (head_module st h)
     else
       match (if fixed then binding_module (l_pkg L) st ref else None) with
       | Some m => Some m
@@ -272,6 +325,10 @@ Section Resolver.
           else match getcaller (l_pkg L) st with Some f => f_mod f | None => None end
       end.
 
+  (* the text of the reference forwardref builds *)
+  Definition strip_name (m ref : string) : string :=
+    if l_strip_lead L then strip_lead m ref else replace_all (m ++ ".") ref.
+
   Definition resolve (s : state) (st : list frame) (ref : string) : state * option string :=
     if fixed then (s, resolve_body st ref)
     else match lookup ref (m_res s) with
@@ -282,7 +339,7 @@ Section Resolver.
   (* refs.forwardref(ref) for a str: (name, module) of the ForwardRef it returns *)
   Definition forwardref (s : state) (st : list frame) (ref : string) : state * (string * option string) :=
     let '(s1, m) := resolve s st ref in
-    (s1, (match m with Some mm => replace_all (mm ++ ".") ref | None => ref end, m)).
+    (s1, (match m with Some mm => strip_name mm ref | None => ref end, m)).
 
   (* ---- refs.evaluate on ForwardRef(name, module): dotted names only ---- *)
   Definition module_dict (m : option string) : table :=
@@ -320,7 +377,7 @@ Section Resolver.
              | Some o =>
                  match getattrs o rest with
                  | Err e => Err e
-                 | Ok (OMod _) => Err ETypeError   (* "Forward references must evaluate to types" *)
+                 | Ok (OMod _) => Err EUnmodelled  (* 3.12 lets a module through; what is built for it is outside *)
                  | Ok v => Ok v
                  end
              end
@@ -461,12 +518,6 @@ End Resolver.
 Definition Refs_full (fixed : bool) : Prop :=
   forall (W : world) (L : lib) (h : list op) (o : op), warm fixed W L h o = cold fixed W L o.
 
-(* the frames step 2 of the repaired resolver passes over for every name *)
-Definition skipped (pkg : string) (f : frame) : bool :=
-  match f_gname f with
-  | Some m => String.eqb m "" || internal pkg m
-  | None => true
-  end.
 Definition lib_ok (L : lib) (e : entry) : bool :=
   forallb (skipped (l_pkg L)) (l_chain L e)
   && match e with EDecode => forallb (skipped (l_pkg L)) (l_chain L EDecodePre) | _ => true end.
